@@ -145,6 +145,41 @@ class TokPE(pe.PE):
                "strchr": ((0, None),), "strstr": ((0, None), (1, None)), "strtod": ((0, None),), "strtol": ((0, None),),
                "strtoll": ((0, None),), "strtoull": ((0, None),), "strdup": ((0, None),), "memchr": ((0, 2),)}
 
+    def _unwritten_global_bytes(self, name):
+        cache = self.__dict__.setdefault("_ugb", {})
+        if name in cache:
+            return cache[name]
+        res = None
+        m = self.home_module if getattr(self, "home_module", None) is not None else None
+        g = m.globals.get(name) if m is not None else None
+        init_bytes = None
+        if g is not None and g.bytes is not None:
+            init_bytes = bytes(g.bytes)
+        elif g is not None and g.init is not None and g.init.kind == "array" and all(a.kind == "int" for a in g.init.args):
+            init_bytes = bytes(a.v % 256 for a in g.init.args)
+        if init_bytes is not None:
+            def refers(v):
+                if v.kind == "global":
+                    return v.v == name
+                if v.kind == "cexpr":
+                    return any(refers(a) for a in v.args)
+                return False
+            written = False
+            for f in m.functions.values():
+                if f.is_decl:
+                    continue
+                for i in f.instrs():
+                    if i.op == "store" and refers(i.ops[1]):
+                        written = True
+                    elif i.op == "call" and i.ops and refers(i.ops[0]) and (i.callee or "").startswith(("llvm.mem", "mem", "str", "snprintf", "sprintf")):
+                        written = True
+                    elif i.op in ("getelementptr", "bitcast") and any(refers(o) for o in i.ops):
+                        written = True      # address taken into a register: not followed here
+            if not written:
+                res = init_bytes
+        cache[name] = res
+        return res
+
     def _note_input_reads(self, state, nm, args):
         """a library call that reads through a pointer into the caller's input counts as reads of those bytes; bytes outside
         the chunk that was given (before its start, or at / after its length) are look-ahead"""
@@ -181,6 +216,30 @@ class TokPE(pe.PE):
         if nm is None:
             return None
         self._note_input_reads(state, nm, args)
+        if (nm.startswith("llvm.memcpy") or nm.startswith("llvm.memmove") or nm in ("memcpy", "memmove")) and len(args) >= 3 \
+                and pe.is_const(args[2]) and 0 <= args[2][1] <= 32 and args[0][0] == "ptr" and args[1][0] == "ptr" \
+                and args[0][1] not in ("tok", "stack", "pb", "input"):
+            # a small copy into a local buffer: byte by byte
+            def at(p, k):
+                if k == 0:
+                    return p
+                path = list(p[2])
+                if path and isinstance(path[-1], tuple) and path[-1][0] == "i" and isinstance(path[-1][1], int):
+                    path[-1] = ("i", path[-1][1] + k)
+                else:
+                    path.append(("i", k))
+                return ("ptr", p[1], tuple(path))
+            vals = [self.load(state, at(args[1], k), "i8") for k in range(args[2][1])]
+            if any(v == pe.TOP for v in vals) and args[1][1].startswith("@"):
+                # a file-scope array that no function ever writes is as good as a constant
+                init = self._unwritten_global_bytes(args[1][1][1:])
+                if init is not None:
+                    el0, fl0 = pe.fields_of(self._loc(state, args[1])[1])
+                    if not fl0 and isinstance(el0, int) and el0 + args[2][1] <= len(init):
+                        vals = [pe.C(b if b < 128 else b - 256) for b in init[el0:el0 + args[2][1]]]
+            for k, v in enumerate(vals):
+                self.store(state, at(args[0], k), v)
+            return args[0]
         if nm in ("uselocale", "newlocale", "duplocale"):
             return ("ptr", "locale", ())
         if nm in ("freelocale", "free", "printbuf_reset", "json_object_array_shrink", "setlocale"):
@@ -192,7 +251,21 @@ class TokPE(pe.PE):
         if nm == "__errno_location":
             return ("ptr", "errno", ())
         if nm in ("printbuf_memappend", "printbuf_memset", "sprintbuf"):
-            state.trace.append(("call", nm, tuple(args), i))
+            snap = None
+            if nm == "printbuf_memappend" and len(args) > 2 and args[1][0] == "ptr" and not args[1][1].startswith("@") \
+                    and args[1][1] != "input" and pe.is_const(args[2]) and 0 < args[2][1] <= 16:
+                # a local buffer: the bytes it holds now (it may be refilled later in the same call)
+                loc0 = self._loc(state, args[1])
+                if loc0 is not None:
+                    el0, fl0 = pe.fields_of(loc0[1])
+                    if not fl0 and isinstance(el0, int):
+                        vals = []
+                        for k in range(args[2][1]):
+                            idx = el0 + k
+                            v = state.mem.get((args[1][1], (("i", idx),) if idx else ()))
+                            vals.append(v)
+                        snap = vals
+            state.trace.append(("call", nm, tuple(args), i, snap))
             return pe.C(0) if nm != "printbuf_memappend" else (args[2] if args[2][0] == "c" else pe.C(1))
         if nm in ("json_object_new_object", "json_object_new_array", "json_object_new_string_len", "json_object_new_double",
                   "json_object_new_double_s", "json_object_new_int64", "json_object_new_uint64", "json_object_new_boolean",
@@ -418,8 +491,12 @@ class Table:
             if src[1].startswith("@"):
                 g = self.fn.module.globals.get(src[1][1:])
                 d["src"] = "literal"
+                off = 0
+                if src[2]:
+                    lastp = src[2][-1]
+                    off = lastp[1] if isinstance(lastp, tuple) and lastp[0] == "i" and isinstance(lastp[1], int) else 0
                 if g is not None and g.bytes is not None:
-                    d["bytes"] = list(g.bytes[:d["len"] or 0])
+                    d["bytes"] = list(g.bytes[off:off + (d["len"] or 0)])
                 elif g is not None and g.init is not None and g.init.kind == "array":
                     d["bytes"] = [a.v % 256 for a in g.init.args if a.kind == "int"][:d["len"] or 0]
                     d["src"] = "table:" + src[1][1:]
@@ -431,7 +508,14 @@ class Table:
                 d["src"] = src[1]
                 # a local buffer: when every appended byte is a constant on this path the append is as good as a literal's
                 n = d["len"]
-                if n is not None and 0 < n <= 16:
+                snap = e[4] if len(e) > 4 else None
+                if snap is not None and n is not None and len(snap) == n:
+                    if all(v is not None and pe.is_const(v) for v in snap):
+                        d["src"] = "literal"
+                        d["bytes"] = [v[1] % 256 for v in snap]
+                    elif n == 1 and snap[0] == pe.R("c"):
+                        d["src"] = "c"
+                elif n is not None and 0 < n <= 16:
                     el0, fl0 = pe.fields_of(src[2]) if src[2] else (0, ())
                     vals = []
                     for k in range(n):
